@@ -58,6 +58,29 @@ def tokData : PyTok → Except PyErr Bytes
   | .data b => .ok b
   | .name _ => .error .valueError
   | .int _ => .error .typeError
+/-- `tokens[k]` for a constant non-negative index -/
+def tokIndex (ts : List PyTok) (k : Int) : Except PyErr PyTok :=
+  if k < 0 then .error .indexError
+  else match ts[k.toNat]? with
+    | some t => .ok t
+    | none => .error .indexError
+
+/-- the fields of a `TxInput` / `TxOutput` / `TxWitnessInput` object that the serialisers read (txid: the bytes its hex string
+denotes, in display order) -/
+structure PyTxIn where
+  txid : Bytes
+  txout_index : Int
+  script_sig : List PyTok
+  sequence : Bytes
+deriving Repr, Inhabited
+structure PyTxOut where
+  amount : Int
+  script_pubkey : List PyTok
+deriving Repr, Inhabited
+structure PyWit where
+  stack : List Bytes
+deriving Repr, Inhabited
+
 /-- `str(i)` -/
 def strInt (i : Int) : String := toString i
 
